@@ -1332,6 +1332,39 @@ func runImages() {
 	for _, w := range oneDWriters {
 		add(w.name, w.mk(), w.f, w.contents[0], 0, 6)
 	}
+	// further poses of the same symbols: mirrored (transposed), rotated by quarter turns, negative
+	pose := func(name string, src *gozxing.BitMatrix, f func(x, y, w, h int) (int, int), swap, invert bool) {
+		w, h := src.GetWidth(), src.GetHeight()
+		nw, nh := w, h
+		if swap {
+			nw, nh = h, w
+		}
+		m, _ := gozxing.NewBitMatrix(nw, nh)
+		for y := 0; y < h; y++ {
+			for x := 0; x < w; x++ {
+				if src.Get(x, y) != invert {
+					nx, ny := f(x, y, w, h)
+					m.Set(nx, ny)
+				}
+			}
+		}
+		syms = append(syms, sym{name, m})
+	}
+	if len(syms) >= 3 {
+		qr, qr2, dm := syms[0].m, syms[1].m, syms[2].m
+		pose("QR", qr, func(x, y, w, h int) (int, int) { return y, x }, true, false)                  // mirrored
+		pose("QRx2", qr2, func(x, y, w, h int) (int, int) { return y, x }, true, false)               // mirrored, scaled
+		pose("QR", qr, func(x, y, w, h int) (int, int) { return h - 1 - y, x }, true, false)          // rotated 90
+		pose("QR", qr, func(x, y, w, h int) (int, int) { return w - 1 - x, h - 1 - y }, false, false) // rotated 180
+		pose("QR", qr, func(x, y, w, h int) (int, int) { return x, y }, false, true)                  // negative
+		pose("DM", dm, func(x, y, w, h int) (int, int) { return h - 1 - y, x }, true, false)
+		pose("DM", dm, func(x, y, w, h int) (int, int) { return y, x }, true, false)
+		pose("DM", dm, func(x, y, w, h int) (int, int) { return x, y }, false, true)
+		for _, s1 := range append([]sym{}, syms[4:13]...) {
+			pose(s1.name, s1.m, func(x, y, w, h int) (int, int) { return w - 1 - x, h - 1 - y }, false, false) // upside down
+			pose(s1.name, s1.m, func(x, y, w, h int) (int, int) { return h - 1 - y, x }, true, false)          // sideways
+		}
+	}
 	type mj struct {
 		s    int
 		kind string
